@@ -162,3 +162,4 @@ BOUNDS = dict(
     "Kronecker / BlockDiag / Sum / scalar multiple / principal and non-principal slices / Transpose / Adjoint / generic wrappers",
     towers="all words over {.T,.H} of length <= 3 (<= 2 on composites)", left="1-D and 2 x m left operands, real and complex",
     values="all payloads symbolic")
+BOUNDS["added"] = 'all-real sums of >= 3 terms with an Identity first / in the middle (an accumulation aliasing the left operand)'
